@@ -3,7 +3,9 @@ package main
 import (
 	"fmt"
 	"os"
+	"path"
 	"path/filepath"
+	"sort"
 	"strings"
 	"time"
 )
@@ -11,13 +13,16 @@ import (
 func init() { runners["C06"] = runC06 }
 
 type c06Job struct {
-	Idx   int
-	Kind  string
-	Args  []string          // argv after the binary; "@F" entries are replaced by file paths
-	Files map[string]string // relative path -> content
-	Input map[string]any
-	Runs  []c06Run
-	Quiet bool // run two of three repetitions without the schedule-perturbation hook (it slows the loader's converters down)
+	Idx    int
+	Kind   string
+	Args   []string          // argv after the binary; "@F" entries are replaced by file paths
+	Files  map[string]string // relative path -> content
+	Input  map[string]any
+	Runs   []c06Run
+	Quiet  bool   // run two of three repetitions without the schedule-perturbation hook (it slows the loader's converters down)
+	Mixed  bool   // every fourth repetition runs without the hook (the natural schedule), the others rotate seeds and GOMAXPROCS
+	Fault  string // stream `failing`: what is wrong with the include tree ("none": it loads)
+	NFiles int    // number of journal files of the case
 }
 
 type c06Run struct {
@@ -209,13 +214,28 @@ func runC06(c *Ctx) {
 		}
 		add(&c06Job{Idx: 100000 + i, Kind: kind, Args: args, Files: files, Input: in, Quiet: true})
 	}
+	// include trees in which a file FAILS (stream `failing`): every command, one or two faults anywhere in the tree
+	for i := 0; i < c.N(120, 600); i++ {
+		if !c.Want("failing", i) {
+			continue
+		}
+		add(c06FailJob(c, i))
+	}
 	gomax := []string{"1", "2", "16"}
 	parallelFor(len(jobs), 8, func(q int) {
 		jb := jobs[q]
 		d := filepath.Join(dir, fmt.Sprintf("%s-%d", jb.Kind, jb.Idx))
 		os.MkdirAll(d, 0o755)
 		for name, content := range jb.Files {
+			if strings.HasSuffix(name, "/") { // a directory where a file is expected
+				os.MkdirAll(filepath.Join(d, name), 0o755)
+				continue
+			}
+			os.MkdirAll(filepath.Dir(filepath.Join(d, name)), 0o755)
 			os.WriteFile(filepath.Join(d, name), []byte(content), 0o644)
+			if strings.HasSuffix(name, ".knut") {
+				jb.NFiles++
+			}
 		}
 		args := make([]string, len(jb.Args))
 		for k, a := range jb.Args {
@@ -226,6 +246,9 @@ func runC06(c *Ctx) {
 		}
 		for rep := 0; rep < reps; rep++ {
 			env := []string{fmt.Sprintf("KNUT_VERIF_SEED=%d", rep*7919+jb.Idx+1), "GOMAXPROCS=" + gomax[rep%3]}
+			if jb.Mixed && rep%4 == 3 {
+				env = []string{"GOMAXPROCS=" + gomax[(rep/4)%3]}
+			}
 			if jb.Quiet {
 				env = []string{"GOMAXPROCS=16"}
 				if rep%3 == 2 {
@@ -235,7 +258,12 @@ func runC06(c *Ctx) {
 			code, so, se := runKnut(c.KnutBin, 30*time.Second, env, args...)
 			jb.Runs = append(jb.Runs, c06Run{Env: env, Code: code, Stdout: so, Stderr: se})
 		}
-		os.RemoveAll(d)
+		if jb.Idx >= 200000 && jb.Input["files"] == nil {
+			jb.Files = nil // large trees are not kept in memory: the case is regenerated from (seed, stream, index)
+		}
+		if os.Getenv("C06_KEEP") == "" { // C06_KEEP=1: leave the case's files in the work directory (for a replay by hand)
+			os.RemoveAll(d)
+		}
 	})
 	for _, jb := range jobs {
 		c.Evals++
@@ -257,11 +285,417 @@ func runC06(c *Ctx) {
 			delete(in, "files") // regenerated from the layout description (hundreds of kilobytes)
 			in["layout"] = jb.Input["layout"]
 		}
-		c.Monitor(stream, idx, "same_output_every_run", in, same, detail)
+		if jb.Idx >= 200000 {
+			stream, idx = "failing", jb.Idx-200000
+			in["tree"], in["fault"] = jb.Input["tree"], jb.Fault
+			if jb.Input["files"] == nil {
+				delete(in, "files") // large: regenerated from (seed, stream, index); the tree description says what is in them
+			}
+		}
+		sameExit, exits := true, ""
+		for _, rr := range jb.Runs {
+			sameExit = sameExit && rr.Code == r0.Code
+			exits += fmt.Sprintf(" %d", rr.Code)
+		}
+		c.Monitor(stream, idx, "same_exit_status_every_run", in, sameExit, "exit status of the runs:"+exits)
+		if key := c06KnownDifference(jb); !same && key != "" {
+			c.MonitorKnown(stream, idx, "same_output_every_run", in, detail, key)
+		} else {
+			c.Monitor(stream, idx, "same_output_every_run", in, same, detail)
+		}
 		c.Monitor(stream, idx, "no_panic", in, !strings.Contains(r0.Stderr, "panic:"), clip(r0.Stderr))
+		if jb.Fault != "" {
+			c.Tag("fault:" + jb.Fault)
+			c.Class(fmt.Sprintf("c06/%s/%s/exit%d/len%s", jb.Kind, jb.Fault, r0.Code, bucket(len(r0.Stdout)/200)))
+			continue
+		}
 		c.Class(fmt.Sprintf("c06/%s/exit%d/len%s", jb.Kind, r0.Code, bucket(len(r0.Stdout)/200)))
 		if jb.Idx < 3 {
 			c.Sample(map[string]any{"kind": jb.Kind, "args": strings.Join(jb.Args, " "), "exit": r0.Code, "stdout": clip(r0.Stdout)[:min(len(r0.Stdout), 600)]})
 		}
 	}
+}
+
+// ---------------------------------------------------------------- stream `failing`: include trees in which a file fails
+//
+// "Output is a function of the input alone" holds for inputs that are REJECTED as well: the exit status and the bytes on
+// stdout may not depend on which loader goroutine met its error first, nor on how much of the rest of the tree had been
+// parsed, converted or consumed by then. The loader parses every included file in a goroutine of its own under one
+// cancellable context; when a file fails, its siblings are at arbitrary points of their work. A command that goes on with
+// what has arrived so far (a dropped error, a consumer that is not joined, a result used although the producer failed)
+// shows a schedule-dependent part of the journal (seeded change C06-f: `knut infer` lost the error of the training loader).
+//
+// One case = one include tree (2..30 files, nested, sub-directories) with own, recognisable content per file (its own
+// expense account, its own description tokens, optionally its own `open`), file sizes from empty to thousands of
+// directives (mixed / all equal / the faulty file the largest or the smallest, so that it fails before, among or after its
+// siblings), and 0, 1 or 2 faults: a half-typed directive (first / middle / last in its file), an include of a missing
+// file, of a directory, of an ancestor (cycle), or a directive the parser accepts and the journal rejects (failing
+// assertion, unopened account, second open, booking before the open, close of a non-empty account). Commands: infer -t
+// (the tree is the training journal; the target asks for every file's tokens), balance, print, check [--write], transcode,
+// register, portfolio weights / returns. Every case runs `reps` times with different schedule seeds and GOMAXPROCS, every
+// fourth run without the perturbation hook.
+
+type c06TFile struct {
+	rel    string
+	parent int
+	n      int      // own transactions
+	blocks []string // directives (text blocks) in file order
+}
+
+var c06SyntaxFaults = []string{
+	"2020-02-01 \"half", // unterminated description
+	"2020-02-01 \"half typed\"\nAssets:Bank Expenses:Cat0 12", // booking without commodity
+	"2020-02-01 \"half typed\"\nAssets:Bank",                  // booking without debit account
+	"2020-02-01 open",
+	"2020-02-01 ope Assets:Bank",
+	"2020-02-01 price USD x CHF",
+	"2020-02-01 balance Assets:Bank 1,5 CHF",
+	"2020-02-",
+	"@performance(",
+	"@accrue monthly 2020-01-01",
+	"include \"",
+	"include f1.knut",
+	"garbage",
+	"\xff\xfe",
+}
+
+var c06ModelFaults = []string{
+	"2020-04-01 balance Assets:Bank 12345 CHF",
+	"2020-01-15 \"unopened\"\nAssets:Bank Expenses:Nope 1 CHF",
+	"2019-12-31 open Assets:Bank",
+	"2019-01-01 \"before the open\"\nAssets:Bank Equity:Opening 1 CHF",
+	"2020-04-01 close Assets:Bank",
+	"2020-04-02 close Assets:Never",
+	"2020-02-30 open Assets:Other",                      // the parser takes any digits, the journal rejects the date
+	"2020-02-01 \"x\"\nassets:bank Expenses:Cat0 1 CHF", // the parser takes any segments, the journal rejects the account type
+}
+
+func c06FailJob(c *Ctx, i int) *c06Job {
+	r := c.Rng("failing", i)
+	cmdSel := i % 8
+	nf := r.Range(2, 9) // files besides the root
+	sizes := []int{0, 1, 2, 5, 20, 60, 200, 600}
+	if c.Thorough() {
+		sizes = append(sizes, 2500)
+		if r.Chance(1, 4) {
+			nf = r.Range(10, 30)
+		}
+	}
+	files := []*c06TFile{{rel: "root.knut", parent: -1}}
+	for k := 1; k <= nf; k++ {
+		parent := 0
+		if r.Chance(1, 3) {
+			parent = r.Intn(k)
+		}
+		files = append(files, &c06TFile{rel: path.Join(Pick(r, []string{"", "", "inc", "inc/deep", "other"}), fmt.Sprintf("f%d.knut", k)), parent: parent})
+	}
+	// faults
+	// one fault; a sixth of the trees have two, a sixth none: the control cases, on which every command prints its whole report
+	// about a journal whose files arrive in schedule order
+	nfaults := 1
+	switch r.Intn(12) {
+	case 0, 1:
+		nfaults = 0
+	case 2, 3:
+		nfaults = 2
+	}
+	if cmdSel == 6 && r.Chance(1, 3) {
+		nfaults = 0 // register and transcode print one line per booking: more of their cases load
+	}
+	type fault struct {
+		file      int
+		kind, pos string
+		text      string
+	}
+	var faults []fault
+	kinds := []string{"syntax", "syntax", "syntax", "missing-include", "missing-include", "include-cycle", "include-dir", "model", "model"}
+	if cmdSel < 3 {
+		kinds = kinds[:7] // infer reads the training files' syntax only
+	}
+	for q := 0; q < nfaults; q++ {
+		faults = append(faults, fault{file: r.Intn(nf + 1), kind: Pick(r, kinds), pos: Pick(r, []string{"first", "middle", "last", "last"})})
+	}
+	// portfolio returns prints while its pipeline runs: half of its cases are journals that are rejected on a late day
+	// (a directive the journal rejects, in a file with many days before it)
+	returns := cmdSel == 7 && r.Chance(2, 3)
+	lateModel := returns && r.Chance(1, 2)
+	if lateModel {
+		faults = []fault{{file: r.Intn(nf + 1), kind: "model", pos: Pick(r, []string{"middle", "last"})}}
+	}
+	// sizes: mixed / all equal (every file races with the faulty one) / the faulty file at an extreme
+	mode := r.Intn(3)
+	eq := Pick(r, sizes[2:])
+	for k, f := range files {
+		f.n = Pick(r, sizes)
+		if mode == 1 {
+			f.n = eq
+		}
+		if k == 0 && r.Chance(1, 2) {
+			f.n = Pick(r, sizes[:4]) // a root that is little more than a list of includes
+		}
+	}
+	if mode == 2 && len(faults) > 0 {
+		files[faults[0].file].n = Pick(r, []int{0, sizes[len(sizes)-1], sizes[len(sizes)-1]})
+	}
+	if lateModel {
+		files[faults[0].file].n = Pick(r, sizes[5:])
+	}
+	// content
+	var head strings.Builder
+	head.WriteString("2019-12-31 open Assets:Bank\n2019-12-31 open Equity:Opening\n")
+	coms := []string{"CHF", "CHF", "USD", "AAPL"}
+	twins := r.Chance(1, 4) // two files share their tokens but book to different accounts (tied candidates)
+	for k, f := range files {
+		open := fmt.Sprintf("2019-12-31 open Expenses:Cat%d\n", k)
+		if r.Chance(1, 3) {
+			f.blocks = append(f.blocks, open)
+		} else {
+			head.WriteString(open)
+		}
+		com := Pick(r, coms)
+		tok := k
+		if twins && k == len(files)-1 {
+			tok = k - 1
+		}
+		for q := 0; q < f.n; q++ {
+			f.blocks = append(f.blocks, fmt.Sprintf("2020-%02d-%02d \"shop%d w%d\"\nAssets:Bank Expenses:Cat%d %d %s\n", 1+(q/28)%3, 1+q%28, tok, q%4, k, 1+(q*7+k)%90, com))
+		}
+	}
+	files[0].blocks = append([]string{head.String()}, files[0].blocks...)
+	pf := files[r.Intn(len(files))]
+	pf.blocks = append(pf.blocks, "2019-12-31 price USD 0.9 CHF\n2019-12-31 price AAPL 150 CHF\n2020-02-01 price USD 0.95 CHF\n2020-02-01 price AAPL 140.5 CHF\n")
+	insert := func(f *c06TFile, pos string, text string) {
+		at := len(f.blocks)
+		switch pos {
+		case "first":
+			at = 0
+		case "middle":
+			at = r.Intn(len(f.blocks) + 1)
+		}
+		f.blocks = append(f.blocks[:at:at], append([]string{text}, f.blocks[at:]...)...)
+	}
+	relTo := func(from, to *c06TFile) string {
+		p, _ := filepath.Rel(path.Dir(from.rel), to.rel)
+		return p
+	}
+	// include directives (children in index order, each at a random place of its parent)
+	for k := 1; k < len(files); k++ {
+		p := files[files[k].parent]
+		insert(p, Pick(r, []string{"first", "middle", "last"}), fmt.Sprintf("include \"%s\"\n", relTo(p, files[k])))
+	}
+	out := map[string]string{}
+	var faultNames []string
+	for q, ft := range faults {
+		f := files[ft.file]
+		switch ft.kind {
+		case "syntax":
+			ft.text = Pick(r, c06SyntaxFaults)
+			if ft.pos != "last" || r.Chance(1, 2) {
+				ft.text += "\n"
+			}
+		case "model":
+			ft.text = Pick(r, c06ModelFaults) + "\n"
+		case "missing-include":
+			ft.text = fmt.Sprintf("include \"%s\"\n", Pick(r, []string{"missing.knut", "inc/missing.knut", "../missing.knut", "f0.knut", ""}))
+		case "include-dir":
+			d := fmt.Sprintf("dir%d", q)
+			out[path.Join(path.Dir(f.rel), d)+"/"] = ""
+			ft.text = fmt.Sprintf("include \"%s\"\n", d)
+		case "include-cycle":
+			anc := ft.file
+			for anc > 0 && r.Chance(1, 2) {
+				anc = files[anc].parent
+			}
+			ft.text = fmt.Sprintf("include \"%s\"\n", relTo(f, files[anc]))
+		}
+		insert(f, ft.pos, ft.text)
+		faults[q] = ft
+		faultNames = append(faultNames, ft.kind+"-"+ft.pos)
+	}
+	sort.Strings(faultNames)
+	faultName := strings.Join(faultNames, "+")
+	if faultName == "" {
+		faultName = "none"
+	}
+	total := 0
+	var tree []string
+	for k, f := range files {
+		text := strings.Join(f.blocks, "\n")
+		out[f.rel] = text
+		total += len(text)
+		line := fmt.Sprintf("%s: %d transactions of its own (tokens shop%d, account Expenses:Cat%d), %d bytes", f.rel, f.n, k, k, len(text))
+		if k > 0 {
+			line += ", included by " + files[f.parent].rel
+		}
+		for _, ft := range faults {
+			if ft.file == k {
+				line += fmt.Sprintf("; FAULT %s (%s): %q", ft.kind, ft.pos, ft.text)
+			}
+		}
+		tree = append(tree, line)
+	}
+	// the command
+	jb := &c06Job{Idx: 200000 + i, Files: out, Mixed: true, Fault: faultName}
+	root := "@root.knut"
+	switch cmdSel {
+	case 0, 1, 2:
+		// the target asks for the tokens of every file, in a random order, plus tokens no file has
+		var tg strings.Builder
+		acc := Pick(r, []string{"Expenses:TBD", "Expenses:TBD", "Expenses:Unknown"})
+		order := make([]int, 0, 2*len(files))
+		for k := range files {
+			order = append(order, k, k)
+		}
+		for k := len(order) - 1; k > 0; k-- {
+			q := r.Intn(k + 1)
+			order[k], order[q] = order[q], order[k]
+		}
+		for n, k := range order {
+			fmt.Fprintf(&tg, "2021-03-%02d \"shop%d w%d\"\nAssets:Bank %s %d CHF\n\n", 1+n%28, k, n%4, acc, 10+n)
+		}
+		fmt.Fprintf(&tg, "2021-04-01 \"never seen\"\n%s Assets:Bank 3 CHF\n", acc)
+		out["target.knut"] = tg.String()
+		total += tg.Len()
+		jb.Kind, jb.Args = "infer", []string{"infer", "-t", root, "@target.knut"}
+		if acc != "Expenses:TBD" {
+			jb.Args = []string{"infer", "-a", acc, "--training-file", root, "@target.knut"}
+		}
+		if r.Chance(1, 6) {
+			// the target is a file of the training tree itself
+			jb.Args = []string{"infer", "-a", fmt.Sprintf("Expenses:Cat%d", r.Intn(len(files))), "-t", root, "@" + files[r.Intn(len(files))].rel}
+		}
+	case 3:
+		fl := Pick(r, [][]string{{}, {"-v", "CHF"}, {"-v", "CHF", "--months", "--csv"}, {"--diff", "--weeks", "--last", "5"}, {"-v", "USD", "--quarters", "-m", "1"}, {"--from", "2020-01-10", "--to", "2020-02-20", "--days", "--last", "3"}})
+		jb.Kind, jb.Args = "balance", append(append([]string{"balance", "--color=false"}, fl...), root)
+	case 4:
+		jb.Kind, jb.Args = "print", []string{"print", root}
+	case 5:
+		jb.Kind, jb.Args = "check", []string{"check", root}
+		if r.Chance(1, 2) {
+			jb.Kind, jb.Args = "check-write", []string{"check", "--write", root}
+		}
+	case 6:
+		jb.Kind, jb.Args = "transcode", []string{"transcode", "-v", Pick(r, []string{"CHF", "USD"}), root}
+		if r.Chance(1, 2) {
+			// rows tied on the destination account came out in map order with -d / -a (found by this stream, repaired by e77962c)
+			fl := Pick(r, [][]string{{}, {"-d"}, {"-a"}, {"-d", "-a"}, {"-d", "-a", "-s"}, {"-s", "-c"}, {"-v", "CHF", "--months"}, {"-v", "CHF", "-d", "-a", "--weeks"},
+				{"-d", "-c", "--weeks"}, {"--source", "Bank", "-v", "USD", "-a", "--quarters"}, {"-m", "1", "-d"}, {"--dest", "Expenses", "-k", "-d", "--days"}, {"-a", "--digits", "1", "--months"}})
+			jb.Kind, jb.Args = "register", append(append([]string{"register", "--color=false"}, fl...), root)
+		}
+	default:
+		jb.Kind, jb.Args = "weights", []string{"portfolio", "weights", "--color=false", "-v", "CHF", Pick(r, []string{"--months", "--quarters", "--weeks"}), "--csv", root}
+		if returns {
+			jb.Kind, jb.Args = "returns", []string{"portfolio", "returns", "-v", "CHF", Pick(r, []string{"--months", "--quarters", "--weeks", "--days"}), root}
+		}
+	}
+	jb.Kind += "-failing-tree"
+	jb.Input = map[string]any{"tree": tree}
+	if total <= 12000 {
+		jb.Input["files"] = out
+	}
+	return jb
+}
+
+// Three differences between repeated runs are findings on the UNCHANGED code (known_findings.jsonl); they are recognised by
+// their exact shape, everything else fails the check:
+//   - `portfolio returns` prints a period as soon as the last pipeline stage has it; when an earlier stage fails later on
+//     (model error on a late day), the lines printed by then are a schedule-dependent PREFIX of the report (same exit status);
+//   - `portfolio returns` adds the float64 values of a day's transactions in the order in which the files arrived (it has no
+//     Sort stage); in a period whose denominator V0 + inflow vanishes (C20's finding) the last bits decide between NaN%, +Inf%
+//     and -Inf%;
+//   - `print` and `transcode` of a journal that loads: price / open / balance / close directives of ONE date that come from
+//     DIFFERENT files are printed in the order in which the loader goroutines delivered the files.
+const (
+	c06KnownReturnsPrefix = "returns-prints-periods-before-a-late-failure"
+	c06KnownReturnsNaN    = "returns-ill-conditioned-period-float-sum-in-arrival-order"
+	c06KnownArrivalOrder  = "print-same-day-directives-of-different-files-in-arrival-order"
+)
+
+func c06KnownDifference(jb *c06Job) string {
+	r0 := jb.Runs[0]
+	for _, rr := range jb.Runs {
+		if rr.Code != r0.Code {
+			return ""
+		}
+	}
+	// allSame: the outputs agree under the canonical form; with prefixOK it suffices that each is a prefix of the longest
+	allSame := func(canon func(string) string, prefixOK bool) bool {
+		long := canon(r0.Stdout)
+		for _, rr := range jb.Runs {
+			if c := canon(rr.Stdout); len(c) > len(long) {
+				long = c
+			}
+		}
+		for _, rr := range jb.Runs {
+			c := canon(rr.Stdout)
+			if c != long && !(prefixOK && strings.HasPrefix(long, c)) {
+				return false
+			}
+		}
+		return true
+	}
+	switch {
+	case strings.HasPrefix(jb.Kind, "returns"):
+		failed := r0.Code != 0
+		if failed && allSame(func(s string) string { return s }, true) {
+			return c06KnownReturnsPrefix
+		}
+		if jb.NFiles > 1 && allSame(c06CanonIllConditioned, failed) {
+			return c06KnownReturnsNaN
+		}
+	case (strings.HasPrefix(jb.Kind, "print") || strings.HasPrefix(jb.Kind, "transcode")) && r0.Code == 0 && jb.NFiles > 1:
+		if allSame(c06CanonSameDay, false) {
+			return c06KnownArrivalOrder
+		}
+	}
+	return ""
+}
+
+// c06CanonIllConditioned replaces the three ways `portfolio returns` prints a division by zero by one token.
+func c06CanonIllConditioned(out string) string {
+	return strings.NewReplacer(": NaN%", ": <x/0>%", ": +Inf%", ": <x/0>%", ": -Inf%", ": <x/0>%").Replace(out)
+}
+
+// c06CanonSameDay sorts the lines inside every maximal run of one-line directives with the same date and keyword
+// (blank lines inside such a run are dropped: transcode separates them, print does not); everything else stays in place.
+func c06CanonSameDay(out string) string {
+	key := func(l string) string {
+		f := strings.Fields(l)
+		if len(f) < 3 || len(f[0]) != 10 || l[0] == ' ' {
+			return ""
+		}
+		switch f[1] {
+		case "open", "close", "price", "balance":
+			return f[0] + " " + f[1]
+		}
+		return ""
+	}
+	var res, run []string
+	cur, blanks := "", 0
+	flush := func() {
+		sort.Strings(run)
+		res = append(res, run...)
+		for ; blanks > 0; blanks-- {
+			res = append(res, "")
+		}
+		run, cur = nil, ""
+	}
+	for _, l := range strings.Split(out, "\n") {
+		k := key(l)
+		switch {
+		case l == "" && cur != "":
+			blanks++
+		case k != "" && k == cur:
+			run, blanks = append(run, l), 0
+		default:
+			flush()
+			if k != "" {
+				run, cur = []string{l}, k
+			} else {
+				res = append(res, l)
+			}
+		}
+	}
+	flush()
+	return strings.Join(res, "\n")
 }
